@@ -75,6 +75,19 @@ def check(ctx):
     ctx.rule("T7-share-leaf", "each descent loop of add/addNode/change/fetch/fetchShare/fetchNode tests isinstance(.., Share)")
     ctx.rule("T7-normalise", "path functions split name.strip('.') on '.'")
     change_replaces_shares_only(ctx)
+    ctx.rule("T4-lookup", "Store.fetch/fetchShare/fetchNode are pure lookups: they write nothing on the store (no memo of earlier results)")
+    MUTS = {"setdefault", "update", "pop", "clear", "append", "extend", "insert", "remove", "popitem", "add", "discard", "__setitem__"}
+    for lname in ("fetch", "fetchShare", "fetchNode"):
+        lf = ctx.cls("storing", "Store").own_method(lname)
+        bad = []
+        for x in ast.walk(lf):
+            if isinstance(x, (ast.Attribute, ast.Subscript)) and isinstance(x.ctx, (ast.Store, ast.Del)) and src(x).startswith("self."):
+                bad.append(src(x)[:50])
+            elif isinstance(x, ast.Call) and isinstance(x.func, ast.Attribute) and x.func.attr in MUTS and src(x.func.value).startswith("self."):
+                bad.append(src(x)[:50])
+        ctx.check(not bad, "T4-lookup", lf, "Store.%s writes nothing%s" % (lname, (": " + bad[0]) if bad else ""),
+                  "a remembered lookup result outlives the entry it names: after change() replaces the share (or a later add "
+                  "creates the path) the lookup keeps returning the old object, not the one most recently placed")
     ctx.rule("T9-names", "created nodes are named '.'.join(levels[:depth]); create/createNode add only on None")
     S = ctx.cls("storing", "Store")
     for name in ("add", "addNode", "change"):
@@ -141,12 +154,38 @@ def check(ctx):
                         "Share without fields are falsy, so an existing entry is treated as missing and overwritten")
         ctx.ok("T1-truthy", f, "Store.%s: no truthiness test on tree entries" % name)
     # sibling guard
+    def _descent_loops(W):
+        """loops that walk the levels of a dotted path: the iterable is, by value, <path>.strip('.').split('.') (or a slice of it)"""
+        out = []
+        for n in W.cfg.nodes:
+            if n.kind != "for":
+                continue
+            it = n.ast.iter
+            if isinstance(it, ast.Call) and call_name(it) == "enumerate" and it.args:
+                it = it.args[0]
+            v = src(W.sym(it, n)).replace('"', "'").replace(" ", "")
+            if ".strip('.').split('.')" in v or "levels" in src(n.ast.iter):
+                out.append((n, v))
+        return out
+
     for name in ("add", "addNode", "change", "fetch", "fetchShare", "fetchNode"):
         f = S.own_method(name)
         V = FuncView(ctx, f)
-        loops = [n for n in V.cfg.nodes if n.kind == "for" and "levels" in src(n.ast.iter)]
+        loops = _descent_loops(V)
+        if not loops:
+            # delegation: the walk lives in one sibling method of Store that is called with the path; judge the walk there
+            cands = []
+            for n_, c_ in [(n_, c_) for n_ in V.cfg.nodes for c_ in V.cfg.walk_node(n_) if isinstance(c_, ast.Call)]:
+                if isinstance(c_.func, ast.Attribute) and dotted(c_.func.value) == "self" and c_.func.attr in S.methods and \
+                        [src(a) for a in c_.args] + [src(k.value) for k in c_.keywords] == ["name"]:
+                    cands.append(S.methods[c_.func.attr])
+            cands = [c for c in cands if _descent_loops(FuncView(ctx, c))]
+            if len({id(c) for c in cands}) == 1:
+                f = cands[0]
+                V = FuncView(ctx, f)
+                loops = _descent_loops(V)
         V.need(loops, "descent loop in Store.%s" % name)
-        h = loops[0]
+        h, itv = loops[0]
         inside = {id(x) for x in ast.walk(h.ast)}
         tests = [t for t in V.cfg.nodes if t.kind == "test" and id(t.ast) in inside and
                  isinstance(t.ast.test, ast.Call) and call_name(t.ast.test) == "isinstance" and src(t.ast.test.args[1]) == "Share"]
@@ -155,12 +194,10 @@ def check(ctx):
                   "the path walk indexes into a Share as if it were a node: a lookup below a share returns a field value or "
                   "raises TypeError, and an add below a share would turn it into a node")
         # the list the walk iterates is <name>.strip('.').split('.'), whatever local(s) carry it
-        W = FuncView(ctx, f)
-        norm = [n for n in W.cfg.nodes if isinstance(n.ast, ast.Assign) and len(n.ast.targets) == 1 and dotted(n.ast.targets[0]) == "levels"]
-        val = src(W.sym(norm[0].ast.value, norm[0])).replace('"', "'").replace(" ", "") if norm else ""
-        ok = bool(norm) and val in ("name.strip('.').split('.')", "share.name.strip('.').split('.')")
-        norm = [n.ast for n in norm]
-        ctx.check(ok, "T7-normalise", f, "Store.%s: levels = %s" % (name, src(norm[0].value) if norm else "?"),
+        pname = f.args.args[1].arg if len(f.args.args) > 1 else "name"
+        base = itv.split("[")[0] if itv.endswith("]") and ".split('.')[" in itv else itv
+        ok = base in ("%s.strip('.').split('.')" % pname, "share.name.strip('.').split('.')")
+        ctx.check(ok, "T7-normalise", f, "Store.%s walks %s" % (name, itv),
                   "leading/trailing dots must not change which entry a path denotes")
     for name in ("add", "addNode"):
         f = S.own_method(name)
